@@ -398,6 +398,9 @@ func genValCase(r *simrt.Rand, tier string, idx int) *ValCase {
 				if len(p) > 1 {
 					cutAt = 1 + r.Intn(len(p)-1)
 				}
+				if r.Bool(0.15) {
+					cutAt = 0 // an empty first fragment is legal
+				}
 				c.Frames = append(c.Frames, Frame{Fin: false, Op: f.Op, Masked: c.Server, Payload: p[:cutAt]})
 				if r.Bool(0.3) {
 					c.Frames = append(c.Frames, Frame{Fin: true, Op: 9, Masked: c.Server, Payload: []byte("mid")})
@@ -444,7 +447,8 @@ func genValCase(r *simrt.Rand, tier string, idx int) *ValCase {
 				f.Payload = []byte("c")
 			case 5:
 				// new data frame inside a fragmented message
-				c.Frames = append(c.Frames, Frame{Fin: false, Op: 1, Masked: c.Server, Payload: []byte("part")})
+				// (the first fragment may be empty: the message is open all the same)
+				c.Frames = append(c.Frames, Frame{Fin: false, Op: r.Pick(1, 2), Masked: c.Server, Payload: []byte(r.PickS("part", "", "p"))})
 				f.Op, f.Payload = r.Pick(1, 2), []byte("new")
 			case 6:
 				f.Op, f.TopBit = 2, true
